@@ -13,6 +13,8 @@ Proof.
 Qed.
 Lemma offer_eqb_refl a : offer_eqb a a = true.
 Proof. apply offer_eqb_spec. reflexivity. Qed.
+Lemma offers_eqb_refl p : list_eqb offer_eqb p p = true.
+Proof. induction p as [|o p IH]; cbn; [reflexivity|]. rewrite offer_eqb_refl, IH. reflexivity. Qed.
 
 (* ---------- the priority queue ---------- *)
 Lemma pop_min_in q e rest : pop_min q = Some (e, rest) -> Permutation (e :: rest) q.
@@ -590,7 +592,7 @@ Section ModelLaw.
       intros Hne.
       pose proof (R_adapt fuel) as L. pose proof (law_yes fuel) as Y.
       unfold run_api in *.
-      destruct a as [| | |mode| |]; cbn [law].
+      destruct a as [| | |mode| | |variant]; cbn [law].
       - destruct (adapt E fuel); try (apply L; discriminate); congruence.
       - destruct (adapt E fuel); try (apply L; discriminate); congruence.
       - destruct (adapt E fuel); cbn in *; try (rewrite Y; exact R_nil); try (apply L; discriminate); congruence.
@@ -612,6 +614,16 @@ Section ModelLaw.
         destruct (e_sub E (e_src E) (e_target E)) eqn:Hp; cbn.
         + unfold adapt in Ha. rewrite Hp in Ha. discriminate.
         + cbn; rewrite ?Hp; apply L; discriminate.
+      - (* compound trait *)
+        assert (adapt E fuel = RNone -> e_sub E (e_src E) (e_target E) = false) as Hn.
+        { intros Ha. destruct (e_sub E (e_src E) (e_target E)) eqn:Hp; [|reflexivity].
+          unfold adapt in Ha. rewrite Hp in Ha. discriminate. }
+        destruct variant as [|[|variant]]; cbn [validate_adapt] in *;
+          (destruct (adapt E fuel) as [|p| |] eqn:Ha;
+           [cbn in *; apply L; discriminate
+           |cbn [decode_either value_eqb of_value]; rewrite ?offers_eqb_refl; cbn [of_value]; apply L; discriminate
+           |pose proof (Hn eq_refl) as Hp; rewrite Hp in *; cbn in *; rewrite ?Hp in *; apply L; discriminate
+           |congruence]).
     Qed.
   End Generic.
 
@@ -1146,4 +1158,21 @@ Proof.
   destruct (Hall o' Hin Hc) as [->|H2]; [lia|].
   cbn [e_order env_of] in Hes. cbn [rev] in Hes.
   exact (order_py_distance _ _ _ _ _ _ _ _ _ Hes H2).
+Qed.
+
+(* the adaptable-object check inside a compound trait applies adapt() the same way *)
+Lemma compound_same E fuel :
+  (forall v, run_api E fuel ApiAdapt = OValue v <-> run_api E fuel (TraitEither 0) = OStored v (Some v)) /\
+  (forall v, run_api E fuel ApiAdapt = OValue v <-> run_api E fuel (TraitEither 1) = OStored v (Some v)) /\
+  (forall v, v <> VDefault -> (run_api E fuel ApiAdapt = OValue v <-> run_api E fuel (TraitEither 2) = OStored v None)) /\
+  (run_api E fuel ApiAdapt = OAdaptationError <-> run_api E fuel (TraitEither 0) = OTraitError) /\
+  (run_api E fuel ApiAdapt = OAdaptationError <-> run_api E fuel (TraitEither 1) = OTraitError) /\
+  (run_api E fuel ApiAdapt = OAdaptationError <-> run_api E fuel (TraitEither 2) = OStored VDefault None).
+Proof.
+  assert (adapt E fuel = RNone -> e_sub E (e_src E) (e_target E) = false) as Hp.
+  { intros H. destruct (e_sub E (e_src E) (e_target E)) eqn:Hq; [|reflexivity].
+    apply (proj2 (adapt_self_iff E fuel)) in Hq. congruence. }
+  unfold run_api. cbn [validate_adapt].
+  destruct (adapt E fuel) eqn:Ha; try (rewrite (Hp eq_refl));
+    repeat split; try (intros [= <-]; reflexivity); try discriminate; try reflexivity; try (intros [= <-]; congruence).
 Qed.
